@@ -128,8 +128,10 @@ func (f *fallback) doFallback(ctx context.Context, qCtx *query_context.Context) 
 			close(primFailed)
 			respChan <- nil
 		} else {
-			close(primDone)
+			// Queue the response before signaling. Otherwise, a standby
+			// secondary may see primDone and put its response in front of this one.
 			respChan <- r
+			close(primDone)
 		}
 	}()
 
